@@ -89,7 +89,8 @@ class World:
         main = ir.modname(prog, prog["mods"][0])
         acc = ir.accepted_names(prog)
         if self.case.get("late_accept"):
-            acc = acc[1:]          # the program's own package is accepted later by an explicit "accept" operation
+            own = set(ir.own_accepted_names(prog))
+            acc = [n for n in acc if n not in own]   # the program's own package (and the names nested in it) is accepted later by an explicit "accept" operation
             info["accepted"] = False
         self._validate_version(self.cur)
         p.call({"cmd": "init", "srcdir": self.srcdir(self.cur), "accept": acc,
@@ -194,7 +195,7 @@ class World:
         elif k == "accept":
             info = self.ensure_proc(op.get("proc", 0))
             prog = self.versions[info["ver"]]
-            info["proc"].call({"cmd": "accept", "names": ir.accepted_names(prog)[:1]})
+            info["proc"].call({"cmd": "accept", "names": ir.own_accepted_names(prog)})
             info["accepted"] = True
             self.log.append([i, "accept"])
             self.probe("late_accept")
@@ -219,6 +220,15 @@ class World:
         fo, fnw = old["funcs"][fn], new["funcs"][fn]
         if fo["mod"] != main_mod or fnw["mod"] != main_mod or fo["kind"] != fnw["kind"] or fo.get("ill"):
             return
+        # module-level path constants (PATH_<fn>, PATH_<fn>_<i>) are not part of the function's cell: the process keeps
+        # the ones it started with, so the new text may only refer to constants that exist there with the same value
+        if fnw.get("pathform", "lit") != "lit" and (fo.get("pathform", "lit") != fnw["pathform"] or fo.get("path") != fnw.get("path")):
+            return
+        for k, it in enumerate(fnw["body"]):
+            if it["t"] == "keep" and it.get("pathform", "lit") != "lit":
+                o_ = fo["body"][k] if k < len(fo["body"]) else None
+                if not (o_ and o_["t"] == "keep" and o_.get("pathform", "lit") == it["pathform"] and o_["path"] == it["path"]):
+                    return
         hybrid = ir.clone(old)
         hybrid["funcs"][fn] = ir.clone(new)["funcs"][fn]
         # every name the new text refers to must exist in the process (same referenced functions / variables)
@@ -272,9 +282,12 @@ class World:
             style = "eval"
         entry = ir.modname(prog, f["mod"]) + ":" + fn
         before = self.store_snapshot(info)
-        out = info["proc"].call({"cmd": "eval", "entry": entry, "style": style, "options": {}})
+        cmd = {"cmd": "eval", "entry": entry, "style": style, "options": {}}
+        if op.get("path"):
+            cmd.update({"style": "keep", "path": op["path"]})      # driver-level dds.keep(path, f)
+        out = info["proc"].call(cmd)
         after = self.store_snapshot(info)
-        rec = {"i": i, "op": "illeval", "entry": fn, "style": style, "res": out["res"], "log": out["log"],
+        rec = {"i": i, "op": "illeval", "entry": fn, "style": style, "path": op.get("path"), "res": out["res"], "log": out["log"],
                "expect": op["expect"], "snap_before": before, "snap_after": after,
                "nstore_calls": sum(1 for c in out["calls"] if c[0] == "store_blob"),
                "nsync_calls": sum(1 for c in out["calls"] if c[0] == "sync_paths"), "store": self.store_id(info)}
@@ -336,7 +349,9 @@ class World:
         opts = dict(op.get("opts", {}))
         gfile = None
         if opts.get("dds_export_graph"):
-            gfile = os.path.join(self.root, f"graph_{i}.{opts['dds_export_graph']}")
+            # one file per evaluation, or (as a user would) the same file for every export of the history
+            gname = "graph" if self.case.get("one_graph_file") else f"graph_{i}"
+            gfile = os.path.join(self.root, f"{gname}.{opts['dds_export_graph']}")
             opts["dds_export_graph"] = gfile
         cmd = {"cmd": "eval", "entry": entry, "style": style, "options": opts}
         if keepcall is not None:
